@@ -1,7 +1,9 @@
 (* C08, relabelling and subset clauses, part 4: the two clauses for a deterministic run on the rank layout.
 
    run L T1 T2 circ ph0 psi : the final amplitude function of the circuit circ (operations on the physical labels L) started
-   in psi with every virtual phase equal to ph0, the internal index of a label being its rank among L.
+   in psi with every virtual phase equal to ph0, the internal index of a label being its rank among L, followed by the
+   read-out layer (one matrix ro(own values) on every internal qubit 0..|L|-1 in this order; run_no_readout: with
+   ro = identity this is the bare circuit).
    Relabelling by pi : the labels become map pi L, every operation acts on the pi-images, the calibration tables satisfy
    T1' (pi q) = T1 q and T2' (pi c) (pi t) = T2 c t, and the initial state psi' gives to every assignment of bits to the
    relabelled qubits the amplitude psi gave to the corresponding assignment of the original qubits; for a product state
@@ -68,8 +70,23 @@ Notation pop := (pop op1 op2).
 Notation internalise := (internalise R cal cal2 ph op1 op2 gate1 next1 gate2 next2).
 Notation marg := (marg W wO wadd).
 
+Variable ro : cal -> m2 R.
+
 Definition run (L : list nat) (T1 : nat -> cal) (T2 : nat -> nat -> cal2) (circ : list pop) (ph0 : ph) (psi : bits -> R)
-  : bits -> R := sem R radd rmul (internalise (rank L) T1 T2 circ (fun _ => ph0)) psi.
+  : bits -> R :=
+  sem R radd rmul (internalise (rank L) T1 T2 circ (fun _ => ph0) ++ readout R cal (length L) ro (lab L) T1) psi.
+
+(* without read-out noise the read-out layer does nothing *)
+Lemma run_no_readout L T1 T2 circ ph0 psi b : (forall c, ro c = id2 R rO rI) ->
+  run L T1 T2 circ ph0 psi b = sem R radd rmul (internalise (rank L) T1 T2 circ (fun _ => ph0)) psi b.
+Proof.
+  intros Hro. unfold run. rewrite (sem_app R radd rmul). unfold readout.
+  generalize (sem R radd rmul (internalise (rank L) T1 T2 circ (fun _ => ph0)) psi) as phi.
+  generalize (seq 0 (length L)) as ks. induction ks as [|k r IH]; intros phi; cbn [map]; [reflexivity|].
+  rewrite sem_cons. cbn [State.apply_item]. rewrite Hro.
+  rewrite (sem_ext R radd rmul (length b) _ _ phi); [apply IH | | reflexivity].
+  intros c _. apply (apply1_id R rO rI radd rmul rsub ropp Rth).
+Qed.
 
 Section Relabelled.
 Variables (L : list nat) (pi : nat -> nat) (T1 T1' : nat -> cal) (T2 T2' : nat -> nat -> cal2) (circ : list pop) (ph0 : ph).
@@ -98,9 +115,13 @@ Proof.
   intros Lb. assert (Hp : perm_on (length L) s) by (now apply induced_perm).
   unfold final', run.
   rewrite (sem_ext R radd rmul (length L) _ _ _ psi'_transport) by (now rewrite permute_length).
-  apply (relabel_sem R radd rmul cal cal2 ph op1 op2 gate1 next1 gate2 next2 (length L) s L pi (rank L) (rank (map pi L))); auto.
+  rewrite map_length.
+  apply (relabel_sem_ro R rO rI radd rmul rsub ropp Rth cal cal2 ph op1 op2 gate1 next1 gate2 next2 (length L) s L pi
+           (rank L) (rank (map pi L))); auto.
   - intros q Hq. now apply rank_lt.
   - intros q Hq. now apply induced_spec.
+  - intros k Hk. now destruct (rank_lab L k HL Hk).
+  - intros k Hk. destruct (rank_lab L k HL Hk) as [Hin _]. unfold s, induced. apply lab_rank. now apply in_map.
 Qed.
 
 (* ... i.e. per assignment of bits to PHYSICAL qubits: the relabelled run gives the assignment a' (with a' (pi q) = a q)
